@@ -18,6 +18,34 @@ def NPat.noOr (n : NPat) : Bool := n.inputs.all (fun i => match i with | some v 
 /-- no `OrValue` anywhere in the pattern -/
 def GPat.noOr (p : GPat) : Bool := p.nodes.all NPat.noOr && p.outputs.all VPat.noOr
 
+/-- no BacktrackingOr anywhere in the value pattern, and every OpIdDispatchOr has no tag variable
+(dispatch on the producer's operator identifier needs no backtracking) -/
+def VPat.dispOk : VPat → Bool
+  | .orD _ _ tagVar _ => tagVar.isNone
+  | .orB .. => false
+  | _ => true
+
+def NPat.dispOk (n : NPat) : Bool := n.inputs.all (fun i => match i with | some v => v.dispOk | none => true)
+
+/-- every `OrValue` of the pattern is an `OpIdDispatchOr` (without tag variable) -/
+def GPat.dispOk (p : GPat) : Bool := p.nodes.all NPat.dispOk
+
+mutual
+/-- node patterns a value pattern refers to (through OR alternatives too) -/
+def VPat.refs : VPat → List NPId
+  | .out q _ => [q]
+  | .orD _ _ _ alts => alts.map (·.np)
+  | .orB _ _ _ _ alts => refsL alts
+  | _ => []
+def refsL : List VPat → List NPId
+  | [] => []
+  | a :: rest => a.refs ++ refsL rest
+end
+
+/-- node patterns only refer (also inside OR alternatives) to node patterns created before them -/
+def GPat.topoDeep (p : GPat) : Prop :=
+  ∀ (np : NPId) (P : NPat), p.nodes[np]? = some P → ∀ vp : VPat, some vp ∈ P.inputs → ∀ q ∈ vp.refs, q < np
+
 /-- node patterns only refer to node patterns created before them (always true for patterns
 written with the builder API: inputs exist before the node is constructed) -/
 def GPat.topo (p : GPat) : Prop :=
@@ -336,9 +364,9 @@ theorem crossGraph_out {g : Graph} {np idx : Nat} {x : ValueId}
   exact h
 
 theorem matchValue_spec (E : Env) (rec : NPId → NodeId → Stack → R) (hrec : NodeSpec E rec)
-    (vp : VPat) (hno : vp.noOr = true) (v : Option ValueId) (c : Partial) (P : List NPId) (r : R)
+    (vp : VPat) (hno : vp.dispOk = true) (v : Option ValueId) (c : Partial) (P : List NPId) (r : R)
     (hr : matchValue E rec vp v [c] = r) (hinv : Inv E c P) (hnb : NB c)
-    (hq : ∀ q idx, vp = .out q idx → ∀ x ∈ P, q < x) :
+    (hq : ∀ q ∈ vp.refs, ∀ x ∈ P, q < x) :
     ∃ c', Res c r c' ∧ Le c c' ∧ NB c' ∧ (r.1 = true → Inv E c' P ∧ SatV E (assignOf c') vp v) := by
   unfold matchValue at hr
   split at hr
@@ -418,18 +446,88 @@ theorem matchValue_spec (E : Env) (rec : NPId → NodeId → Stack → R) (hrec 
               exact ⟨_, r1.chain (Res.failed c1) ht', (e1.trans (ext_failed c1)).le,
                 hnb.ext (e1.trans (ext_failed c1)), fun h => by simp [fail_single] at h⟩
             · next hidx =>
-              obtain ⟨c2, r2, l2, nb2, s2⟩ := hrec np n c1 P r hr (hinv.ext e1) (hq np idx rfl) (hnb.ext e1)
+              obtain ⟨c2, r2, l2, nb2, s2⟩ := hrec np n c1 P r hr (hinv.ext e1) (hq np (by simp [VPat.refs])) (hnb.ext e1)
               refine ⟨c2, r1.chain r2 ht', e1.le.trans l2, nb2, fun h => ⟨(s2 h).1, ?_⟩⟩
               have hidx' : E.g.index x = some idx := by simpa using hidx
               exact .out np idx x n (boundTo_mono l2.toALe _ _ _ (b1 ht')) (crossGraph_out hcg) hprod hidx' (s2 h).2
-    | orD => simp [VPat.noOr] at hno
-    | orB => simp [VPat.noOr] at hno
+    | orD id name tagVar alts =>
+      have htv : tagVar = none := by
+        cases tagVar with
+        | none => rfl
+        | some t => simp [VPat.dispOk] at hno
+      subst htv
+      dsimp only at hr
+      obtain ⟨c1, r1, e1, b1⟩ := bindValue_spec E.p c (.orD id name none alts) v
+      split at hr
+      · next hf =>
+        subst hr
+        have hf' : (bindValue E.p [c] (.orD id name none alts) v).1 = false := by simpa using hf
+        exact ⟨c1, r1, e1.le, hnb.ext e1, fun h => by simp [hf'] at h⟩
+      · next ht =>
+        have ht' : (bindValue E.p [c] (.orD id name none alts) v).1 = true := by simpa using ht
+        rw [r1.st] at hr
+        split at hr
+        · subst hr
+          exact ⟨_, r1.chain (Res.failed c1) ht', (e1.trans (ext_failed c1)).le,
+            hnb.ext (e1.trans (ext_failed c1)), fun h => by simp [fail_single] at h⟩
+        · next x =>
+          have hfor : E.g.isForeign x = false := by
+            simp only [crossGraphBad, VPat.crossGraphOk, Bool.not_false, Bool.and_true,
+              Bool.not_eq_true] at hcg
+            exact hcg
+          split at hr
+          · subst hr
+            exact ⟨_, r1.chain (Res.failed c1) ht', (e1.trans (ext_failed c1)).le,
+              hnb.ext (e1.trans (ext_failed c1)), fun h => by simp [fail_single] at h⟩
+          · next a hd =>
+            have hdm : a ∈ alts := by
+              unfold getDispatch at hd
+              split at hd
+              · cases hd
+              · split at hd
+                · cases hd
+                · exact List.mem_of_find?_eq_some hd
+            obtain ⟨c2, r2, e2, b2⟩ := bindValue_spec E.p c1 (.out a.np a.idx) (some x)
+            have hr' : (if !(bindValue E.p [c1] (.out a.np a.idx) (some x)).1 then
+                bindValue E.p [c1] (.out a.np a.idx) (some x)
+              else matchNodeOutput E rec a.np a.idx x (bindValue E.p [c1] (.out a.np a.idx) (some x)).2) = r := by
+              simp only [ite_self] at hr
+              exact hr
+            clear hr
+            split at hr'
+            · next hf2 =>
+              subst hr'
+              have hf2' : (bindValue E.p [c1] (.out a.np a.idx) (some x)).1 = false := by simpa using hf2
+              exact ⟨c2, r1.chain r2 ht', (e1.trans e2).le, hnb.ext (e1.trans e2), fun h => by simp [hf2'] at h⟩
+            · next ht2 =>
+              have ht2' : (bindValue E.p [c1] (.out a.np a.idx) (some x)).1 = true := by simpa using ht2
+              rw [r2.st] at hr'
+              have e12 := e1.trans e2
+              unfold matchNodeOutput at hr'
+              split at hr'
+              · subst hr'
+                exact ⟨_, (r1.chain r2 ht').chain (Res.failed c2) ht2', (e12.trans (ext_failed c2)).le,
+                  hnb.ext (e12.trans (ext_failed c2)), fun h => by simp [fail_single] at h⟩
+              · next n hprod =>
+                split at hr'
+                · subst hr'
+                  exact ⟨_, (r1.chain r2 ht').chain (Res.failed c2) ht2', (e12.trans (ext_failed c2)).le,
+                    hnb.ext (e12.trans (ext_failed c2)), fun h => by simp [fail_single] at h⟩
+                · next hidx =>
+                  obtain ⟨c3, r3, l3, nb3, s3⟩ := hrec a.np n c2 P r hr' (hinv.ext e12)
+                    (hq a.np (by simp only [VPat.refs, List.mem_map]; exact ⟨a, hdm, rfl⟩)) (hnb.ext e12)
+                  refine ⟨c3, (r1.chain r2 ht').chain r3 ht2', e12.le.trans l3, nb3, fun h => ⟨(s3 h).1, ?_⟩⟩
+                  have hidx' : E.g.index x = some a.idx := by simpa using hidx
+                  refine .orD id name none alts x a (boundTo_mono (e2.le.trans l3).toALe _ _ _ (b1 ht')) hfor hd ?_
+                    (fun t e => by cases e)
+                  exact .out a.np a.idx x n (boundTo_mono l3.toALe _ _ _ (b2 ht2')) hfor hprod hidx' (s3 h).2
+    | orB => simp [VPat.dispOk] at hno
 
 theorem matchInputs_spec (E : Env) (rec : NPId → NodeId → Stack → R) (hrec : NodeSpec E rec)
     (P : List NPId) :
     ∀ (pairs : List (Option ValueId × Option VPat)) (c : Partial) (r : R),
       matchInputs (matchValue E rec) pairs [c] = r → Inv E c P → NB c →
-      (∀ v vp, (v, some vp) ∈ pairs → vp.noOr = true ∧ ∀ q idx, vp = .out q idx → ∀ x ∈ P, q < x) →
+      (∀ v vp, (v, some vp) ∈ pairs → vp.dispOk = true ∧ ∀ q ∈ vp.refs, ∀ x ∈ P, q < x) →
       ∃ c', Res c r c' ∧ Le c c' ∧ NB c' ∧ (r.1 = true → Inv E c' P ∧
         (∀ v, (v, none) ∈ pairs → v = none) ∧
         (∀ v vp, (v, some vp) ∈ pairs → SatV E (assignOf c') vp v)) := by
@@ -585,8 +683,53 @@ theorem noOr_input {p : GPat} (h : p.noOr = true) {np : NPId} {Pn : NPat} (hP : 
   simp only [List.all_eq_true] at h1
   exact h1 (some vp) hm
 
+theorem dispOk_input {p : GPat} (h : p.dispOk = true) {np : NPId} {Pn : NPat} (hP : p.nodes[np]? = some Pn)
+    {vp : VPat} (hm : some vp ∈ Pn.inputs) : vp.dispOk = true := by
+  unfold GPat.dispOk at h
+  simp only [List.all_eq_true] at h
+  have h1 := h Pn (List.mem_of_getElem? hP)
+  unfold NPat.dispOk at h1
+  simp only [List.all_eq_true] at h1
+  exact h1 (some vp) hm
+
+theorem VPat.noOr_dispOk : ∀ vp : VPat, vp.noOr = true → vp.dispOk = true
+  | .var .., _ => rfl
+  | .any, _ => rfl
+  | .const .., _ => rfl
+  | .out .., _ => rfl
+  | .orD .., h => by simp [VPat.noOr] at h
+  | .orB .., h => by simp [VPat.noOr] at h
+
+/-- OR-free patterns are in particular dispatch-only patterns -/
+theorem GPat.noOr_dispOk (p : GPat) (h : p.noOr = true) : p.dispOk = true := by
+  unfold GPat.noOr at h
+  unfold GPat.dispOk
+  simp only [Bool.and_eq_true, List.all_eq_true] at h ⊢
+  intro n hn
+  have := h.1 n hn
+  unfold NPat.noOr at this
+  unfold NPat.dispOk
+  simp only [List.all_eq_true] at this ⊢
+  intro i hi
+  have h2 := this i hi
+  cases i with
+  | none => rfl
+  | some v => exact VPat.noOr_dispOk v h2
+
+/-- for OR-free patterns the shallow order condition is the deep one -/
+theorem GPat.topo_topoDeep (p : GPat) (hno : p.noOr = true) (h : p.topo) : p.topoDeep := by
+  intro np P hP vp hin q hq
+  have hv := noOr_input hno hP hin
+  cases vp with
+  | out q' idx => simp [VPat.refs] at hq; subst hq; exact h np P hP q idx hin
+  | var => simp [VPat.refs] at hq
+  | any => simp [VPat.refs] at hq
+  | const => simp [VPat.refs] at hq
+  | orD => simp [VPat.noOr] at hv
+  | orB => simp [VPat.noOr] at hv
+
 theorem nodeStep_spec (E : Env) (rec : NPId → NodeId → Stack → R) (hrec : NodeSpec E rec)
-    (hno : E.p.noOr = true) (htopo : E.p.topo) (har : E.fixF1 = true ∨ OutputArityOk E.p E.g) :
+    (hno : E.p.dispOk = true) (htopo : E.p.topoDeep) (har : E.fixF1 = true ∨ OutputArityOk E.p E.g) :
     NodeSpec E (nodeStep E (matchValue E rec)) := by
   intro np n c P r hr hinv hlt hnb
   unfold nodeStep at hr
@@ -655,12 +798,11 @@ theorem nodeStep_spec (E : Env) (rec : NPId → NodeId → Stack → R) (hrec : 
             fun h => by simp [fail_single] at h⟩
         · next hlen =>
           have hpairs : ∀ v vp, (v, some vp) ∈ zipPad N.inputs Pn.inputs →
-              vp.noOr = true ∧ ∀ q idx, vp = .out q idx → ∀ x ∈ np :: P, q < x := by
+              vp.dispOk = true ∧ ∀ q ∈ vp.refs, ∀ x ∈ np :: P, q < x := by
             intro v vp hmem
             have hin := zipPad_mem_snd _ _ _ _ hmem
-            refine ⟨noOr_input hno hP hin, fun q idx he x hx => ?_⟩
-            subst he
-            have hqnp := htopo np Pn hP q idx hin
+            refine ⟨dispOk_input hno hP hin, fun q hqr x hx => ?_⟩
+            have hqnp := htopo np Pn hP vp hin q hqr
             rcases List.mem_cons.1 hx with h | h
             · exact h ▸ hqnp
             · exact Nat.lt_trans hqnp (hlt x h)
@@ -718,7 +860,7 @@ theorem nodeStep_spec (E : Env) (rec : NPId → NodeId → Stack → R) (hrec : 
     · subst hr
       exact ⟨_, Res.failed c, (ext_failed c).le, hnb.ext (ext_failed c), fun h => by simp [fail_single] at h⟩
 
-theorem matchNode_spec (E : Env) (hno : E.p.noOr = true) (htopo : E.p.topo)
+theorem matchNode_spec (E : Env) (hno : E.p.dispOk = true) (htopo : E.p.topoDeep)
     (har : E.fixF1 = true ∨ OutputArityOk E.p E.g) : ∀ f, NodeSpec E (matchNode E f)
   | 0 => by
     intro np n c P r hr hinv _ hnb
@@ -732,7 +874,7 @@ theorem matchNode_spec (E : Env) (hno : E.p.noOr = true) (htopo : E.p.topo)
     unfold matchNode at hr
     exact this np n c P r hr
 
-theorem matchOutputNodes_spec (E : Env) (hno : E.p.noOr = true) (htopo : E.p.topo)
+theorem matchOutputNodes_spec (E : Env) (hno : E.p.dispOk = true) (htopo : E.p.topoDeep)
     (har : E.fixF1 = true ∨ OutputArityOk E.p E.g) :
     ∀ (l : List (NPId × NodeId)) (c : Partial) (r : R),
       matchOutputNodes E l [c] = r → Inv E c [] → NB c →
